@@ -4,11 +4,12 @@ import IQE.Engine.Coordinator
 open Lean IQE.Engine IQE.Engine.Coordinator
 namespace Driver.C10
 
-/-- Switch settings the correspondence K accepts: the intended behaviour and the known deviations of
-    finding C10-F1 (the code today = both on; either half of the proposed fix alone = one on). -/
+/-- Switch settings the correspondence K accepts besides the intended behaviour: the deviations of the findings
+    that are still OPEN in known_findings.json.  C10-F1 (`Dev.legacy`: EOF taken for end-of-stream, declared rows
+    ignored) was repaired by /repo commit caf22ad, so the list is empty: only the intended model is accepted, and a
+    return of the old behaviour is an unattributed oracle failure (a VIOLATION). -/
 def fixedDev : Dev := Dev.fixed
-def knownDevs : List Dev :=
-  [Dev.legacy, { eofIsEos := true, ignoreDeclaredRows := false }, { eofIsEos := false, ignoreDeclaredRows := true }]
+def knownDevs : List Dev := []
 def findingId : String := "C10-F1"
 
 def jNat (n : Nat) : Json := Json.num (JsonNumber.fromNat n)
